@@ -3290,6 +3290,61 @@ stoCAlloc(unsigned code, ULong nbytes)
 }
 
 
+
+#ifdef ALDOR_VERIF
+#include <stdio.h>
+#include <stdlib.h>
+#include <string.h>
+#include <unistd.h>
+/*
+ * Verification hook (guard ALDOR_VERIF): forced collection schedule.
+ * ALDOR_VERIF_GC=<k>:<j>[:<from>:<to>] collects at every allocation n with
+ * n % k == j (and from <= n < to); ALDOR_VERIF_GC=never disables automatic
+ * collection. Freed storage is washed. A summary goes to fd 3 at exit.
+ */
+static long	verifGcK = -1, verifGcJ = 0, verifGcFrom = 0, verifGcTo = -1;
+static long	verifGcN = 0, verifGcForced = 0;
+
+static void
+verifGcReport(void)
+{
+	char	buf[96];
+	int	n = sprintf(buf, "VERIF-GC forced=%ld allocs=%ld\n",
+			    verifGcForced, verifGcN);
+	if (write(3, buf, n) < 0) { /* fd 3 not open: ignore */ }
+}
+
+static void
+verifGcTick(void)
+{
+	long	n;
+	if (verifGcK == -1) {
+		char	*e = getenv("ALDOR_VERIF_GC");
+		verifGcK = 0;
+		if (e && !strcmp(e, "never"))
+			verifGcK = -2;
+		else if (e && sscanf(e, "%ld:%ld:%ld:%ld", &verifGcK, &verifGcJ,
+				     &verifGcFrom, &verifGcTo) >= 1) {
+			if (verifGcK < 0) verifGcK = 0;
+		}
+		if (verifGcK != 0) atexit(verifGcReport);
+	}
+	if (verifGcK == 0) return;
+	n = verifGcN++;
+	if (verifGcK == -2) {
+		if (gcLevel == StoCtl_GcLevel_Automatic)
+			gcLevel = StoCtl_GcLevel_Demand;
+		return;
+	}
+	stoMustWash = true;
+	if (gcLevel == StoCtl_GcLevel_Never) return;
+	if (n < verifGcFrom || (verifGcTo >= 0 && n >= verifGcTo)) return;
+	if (n % verifGcK != verifGcJ % verifGcK) return;
+	verifGcForced++;
+	stoGc();
+}
+#endif /* ALDOR_VERIF */
+
 MostAlignedType *
 stoAlloc(unsigned code, ULong nbytes)
 {
@@ -3300,6 +3355,10 @@ stoAlloc(unsigned code, ULong nbytes)
 
 	if (!stoIsInit && !stoInit())
 		return (*stoError)(StoErr_CantBuild);
+
+#ifdef ALDOR_VERIF
+	verifGcTick();
+#endif
 
 #ifdef USE_MEMORY_CLIMATE
 	code = getMemoryClimate();
